@@ -201,11 +201,11 @@ def _formula_job(tier):
     K = build.load_class(src, '_c16f', narrow=False)
     calls = []
 
-    class Spy(K):
-        pass
+    # the spies are planted on a second copy of the class itself (the runtime looks cell methods up in the instance's own class only, so a subclass would not do)
+    Spy = build.load_class(src, '_c16fs', narrow=False)
     for h in FUNCS:
         def mk(h):
-            real = getattr(K, h)
+            real = getattr(Spy, h)
             def spy(self, number, digits):
                 calls.append((h, number, digits))
                 return real(self, number, digits)
@@ -235,7 +235,7 @@ def _formula_job(tier):
                     break
             if bad:
                 break
-        conds[f'delegates.{cell}'] = ('violated', n_cases, bad) if bad else ('holds', n_cases, f'{f}: every evaluation is exactly one call {HELPER_OF[m.group(1)]}(A1, digits)')
+        conds[f'delegates.{cell}'] = ('inconclusive', n_cases, bad + ' - the solver verdicts on the helper do not carry over to this formula; only the witness values below speak for it') if bad else ('holds', n_cases, f'{f}: every evaluation is exactly one call {HELPER_OF[m.group(1)]}(A1, digits)')
     # (b) native witness values against the decimal-exact oracle (numbers with <= 4 decimals; ties of ROUND excluded: recorded finding)
     XS = [Fraction(k, 10 ** s_) for s_ in (0, 1, 2, 4) for k in (0, 1, 5, 7, 25, 314, 1260, 9999, 12345)]
     bad = None
@@ -256,8 +256,6 @@ def _formula_job(tier):
                     continue            # exact tie: Python round() vs Excel, recorded finding
                 if h != '_round' and s_ > 0 and b >= s_ and mm % 5 ** s_ != 0:
                     continue            # recorded finding region (already at the requested precision, not representable)
-                if h != '_round' and s_ > 0 and 0 <= b < s_:
-                    continue            # representation error of number * 10**n near an integer: covered (and bounded) by the FP jobs, not by this witness grid
                 xv = int(xq) if xq.denominator == 1 else float(xq)
                 try:
                     got = ev(K, cell, A1=xv, B1=b)
@@ -338,11 +336,12 @@ def run(report, tier, seed):
                         continue
                     jobs.append((f'{f}_s{s}_n{n}_{"neg" if neg else "pos"}', _job, (f, s, n, neg, mmax, region_src, to, tier != 'quick')))
     for f in FUNCS:                     # whole numbers arriving as Python ints (integer cells, integer literals), incl. negative digit counts
-        for n in ([-2, -1, 0, 1] if tier == 'quick' else [-4, -3, -2, -1, 0, 1, 2]):
+        for n in ([-1, 0, 1] if tier == 'quick' else [-3, -2, -1, 0, 1, 2]):
             for neg in (False, True):
-                jobs.append((f'{f}_int_n{n}_{"neg" if neg else "pos"}', _job, (f, 0, n, neg, mmax * 5, None, to, False, True)))
+                jobs.append((f'{f}_int_n{n}_{"neg" if neg else "pos"}', _job, (f, 0, n, neg, mmax, None, to, False, True)))
     jobs.append(('formulas', _formula_job, (tier,)))
-    res = e2.run_jobs(jobs, NCPU, deadline=to * 2 + 120)
+    jobs.sort(key=lambda j: 0 if j[0] == 'formulas' else 1)       # the formula-level job first (it is cheap and must not fall to the budget)
+    res = e2.run_jobs(jobs, NCPU, deadline=to * 2 + 120, total=900 if tier == 'quick' else 4800)
     fr = res.pop('formulas', {'error': 'formula job missing'})
     if 'error' in fr:
         report.condition('formula.level', 'native', 'inconclusive', detail=fr['error'])
